@@ -18,14 +18,19 @@ META = {
               "hdr_val_get_ex/get_count/remove L<=6 | <=9 with names of 1 | 0..2 symbolic bytes, query get/del L<=5 | <=7, chunked L<=8 | <=11 plus the "
               "2^64-wrap shapes (L=18..21, size line starting with 15 'f'), url_decode L<=5 | <=8 with out buffers 0..L+1, req_sec_chk L<=4 | <=6; "
               "SDP type_get/feilds_get L<=8 | <=11, sec_chk L<16 (early reject); SAP L=0..40 | ..60; RTP L=0..20 | ..80; MPEG-TS is_valid L=187,188,208,209 | all "
-              "four sizes, get_next buffers 187..210 | ..377; dhcp4_hdr_check L=0,239,240,241 | ..300. "
+              "four sizes, get_next buffers 187..210 | ..250; "
+              "mpeg2_ts_pkt_size_detect on SPARSE buffers (exactly sized heap object, every byte zero except w fully symbolic bytes - sync, TEI/PUSI/PID-hi, "
+              "PID-lo, scrambling/adaptation/cc, adaptation_field_length|table id, next byte - at each listed candidate position; each of them may be a sync "
+              "byte): 208 bytes with clusters (w=6) at 0 and 20 | also 187 bytes (refused), 2x188=376 bytes with clusters (w=6) at 0 and 188, 188+208=396 bytes "
+              "with clusters (w=4) at 0 and 188; dhcp4_hdr_check L=0,239,240,241 | ..300. "
               "Decided per job: every dereference / memcpy / memmove / memcmp range inside the objects (CBMC bounds + pointer checks), termination "
               "(unwinding assertions), result codes, and every returned pointer/length/offset inside the message (V_ASSERTs).",
     "outside": "sdp_msg_sec_chk on messages >= 16 bytes that pass the 'v=0' prefix test (6 nested count/find walks: no verdict in 1500 s at L=16; its callees "
                "sdp_msg_type_get / count are decided separately for L<=11); http_req_sec_chk for blocks > 6 bytes and http_hdr_val_get_count for blocks > 9 bytes "
                "(same reason); dns_msg_rr_find (510-byte on-stack name buffer with symbolic-length memcpy: cbmc / the SAT back end run out of memory at L=23 with 8 and "
-               "with 20 GB; its callee dns_msg_rr_get_data is decided separately); compression walks in messages longer than 16 bytes; mpeg2_ts_pkt_size_detect (64-candidate "
-               "table over >= 208-byte buffers); lengths above the listed ones up to the protocol maxima (64 KiB DNS/TCP, 4 KiB RADIUS, ...); DHCPv4 option "
+               "with 20 GB; its callee dns_msg_rr_get_data is decided separately); compression walks in messages longer than 16 bytes; mpeg2_ts_pkt_size_detect on buffers with arbitrary "
+               "content (decided only on the sparse shapes listed under bounds: at most 12 possible sync bytes, never two valid candidates exactly one "
+               "packet size apart except in the 396-byte shape); lengths above the listed ones up to the protocol maxima (64 KiB DNS/TCP, 4 KiB RADIUS, ...); DHCPv4 option "
                "walkers (the header defines option tables but no walker function; only dhcp4_hdr_check exists); the non-glibc fallbacks of al/os.h "
                "(memmem/memrchr) and the byte-loop variant of mem_cmpi (the real Linux build uses libc).",
     "assumptions": [
@@ -40,12 +45,14 @@ META = {
         "`(dns_question_p)(hdr + offset + name_size - sizeof(uint8_t*))`, a pointer before the object whose accessed fields are inside it; cbmc's "
         "integer-to-pointer model flags that although no byte outside is touched",
         "mpeg2_ts_pkt_get_next: caller's offset <= buf_size (otherwise `buf_size - off` wraps: caller parameter, not packet content)",
+        "ts-sizedetect jobs only: memchr = c13_memchr in media.c (CBMC only; glibc memchr in the replay): same contract as memchr, range asserted to lie "
+        "inside the buffer under test, written as a scan over the concrete indices of that buffer so that its concrete zero bytes fold away in symbolic execution",
         "http_hdr_val_remove: hdr_lcase is the lower-case copy of the same size produced by the real mem_to_lower()",
         "known-finding clauses in force (KF dict in jobs.py; each excludes exactly the input class of one unrepaired defect, see findings/*.md). "
         "ref_walk_leaves_msg / ref_seq_leaves_buf2 / ref_sections_hit_known_defect in dns.c are reference walks used ONLY as these blocking predicates",
     ],
     "harness_functions": ["harness", "v_alloc", "v_buf", "memchr", "memrchr", "memmem", "explicit_bzero", "strnlen",
-                          "ref_walk_leaves_msg", "ref_seq_leaves_buf", "ref_seq_leaves_buf2", "ref_sections_hit_known_defect"],
+                          "ref_walk_leaves_msg", "ref_seq_leaves_buf", "ref_seq_leaves_buf2", "ref_sections_hit_known_defect", "c13_memchr"],
 }
 if not NOKF:
     META["assumptions"] += ["%s: blocked input class = %s" % (k, v) for k, v in sorted(KF.items()) if k not in KF_OFF]
@@ -57,7 +64,7 @@ def kf(*names):
     return {n: None for n in names if n in KF and n not in KF_OFF}
 
 
-def J(out, name, src, defs, shape, desc, unwind=None, unwindset=None, kfs=(), timeout=None, solver=None, flags=None, cost=1):
+def J(out, name, src, defs, shape, desc, unwind=None, unwindset=None, kfs=(), timeout=None, solver=None, flags=None, cost=1, heavy=False):
     d = dict(defs)
     d.update(kf(*kfs))
     us = list(unwindset or [])
@@ -70,6 +77,8 @@ def J(out, name, src, defs, shape, desc, unwind=None, unwindset=None, kfs=(), ti
          "prop_exclude": "pointer relation: pointer outside object bounds"}
     if timeout:
         j["timeout"] = timeout
+    if heavy:
+        j["heavy"] = True
     out.append(j)
 
 
@@ -253,6 +262,19 @@ def media_jobs(tier, out):
         J(out, "ts-next-L%d-P%d" % (L, ps), "media.c", {"T": 7, "LEN": L, "PSZ": ps}, "buffer %d bytes, packet size %d, offset <= size" % (L, ps),
           "mpeg2_ts_pkt_get_next: returned packet wholly inside the buffer", unwind=L + 3,
           unwindset=["mpeg2_ts_pkt_get_next.0:3"])
+    # mpeg2_ts_pkt_size_detect: sparse shapes (all bytes zero except 6 fully symbolic bytes at each listed candidate position;
+    # every one of them may be a sync byte).  Loop bounds: scan loop = one round per possible sync byte; the sequence loops
+    # run over the candidates that have 208 bytes behind them.
+    for L, cl, w in ([(208, (0, 20), 6)] if q else [(187, (0,), 6), (208, (0, 20), 6), (376, (0, 188), 6), (396, (0, 188), 4)]):
+        nsync = w * len(cl)
+        fits = len([p + b for p in cl for b in range(w) if p + b + 208 <= L])
+        J(out, "ts-sizedetect-L%d" % L, "media.c", {"T": 11, "LEN": L, "CLW": w, "CL_POS": ",".join(str(p) for p in cl)},
+          "buffer %d bytes, zero except %d symbolic bytes at %s" % (L, w, "/".join(str(p) for p in cl)),
+          "mpeg2_ts_pkt_size_detect: in-bounds reads (incl. the PSI header probe of each candidate), terminates, one of the four sizes",
+          unwind=7, unwindset=["harness.0:%d" % (L + 2), "c13_memchr.0:%d" % (L + 2), "mpeg2_ts_pkt_size_detect.0:%d" % (nsync + 2),
+                               "mpeg2_ts_pkt_size_detect.1:%d" % (fits + 2), "mpeg2_ts_pkt_size_detect.2:%d" % (fits + 2),
+                               "mpeg2_ts_pkt_size_detect.3:5", "mpeg2_ts_pkt_size_detect.4:5"],
+          timeout=(400 if q else 1500), cost=200, **({"heavy": True} if L >= 376 else {}))
     for L in ([0, 239, 240, 241] if q else [0, 1, 239, 240, 241, 300]):
         J(out, "dhcp4-hdr-L%d" % L, "media.c", {"T": 8, "LEN": L}, "datagram %d bytes" % L,
           "dhcp4_hdr_check: in-bounds reads, accepted => complete header", unwind=6)
